@@ -1,0 +1,44 @@
+//! Verification hooks (compiled only with `--cfg mahf_verif`).
+//!
+//! A step observer that is told about every child execution of every [`Block`].
+//!
+//! [`Block`]: crate::components::Block
+
+use better_any::{Tid, TidAble};
+
+use crate::{Component, CustomState, Problem, State};
+
+/// What a [`Block`](crate::components::Block) is doing right now.
+pub enum Step<'c, P: Problem> {
+    BlockEnter {
+        block: usize,
+        len: usize,
+    },
+    Before {
+        block: usize,
+        index: usize,
+        component: &'c dyn Component<P>,
+    },
+    After {
+        block: usize,
+        index: usize,
+        component: &'c dyn Component<P>,
+    },
+    BlockExit {
+        block: usize,
+    },
+}
+
+pub type StepFn<P> = Box<dyn for<'c, 's, 'x> Fn(&Step<'c, P>, &P, &'s State<'x, P>) + Send>;
+
+/// Optional observer stored in the state; called with shared access to the state only.
+#[derive(Tid)]
+pub struct StepObserver<P: Problem + 'static>(pub StepFn<P>);
+
+impl<P: Problem> CustomState<'_> for StepObserver<P> {}
+
+pub(crate) fn emit<P: Problem>(step: Step<'_, P>, problem: &P, state: &State<P>) {
+    if let Ok(observer) = state.try_borrow::<StepObserver<P>>() {
+        (observer.0)(&step, problem, state)
+    }
+}
